@@ -110,6 +110,9 @@ pub struct GramOpts {
     /// second-wave constructs: attributes, helpers, class operators, nested sections in classes,
     /// record/array constants, width specifiers, labels/goto, hint directives, exports ...
     pub extended: bool,
+    /// statement selector (0..100, see `statement_inner`) forced for the first statement generated:
+    /// lets a workload visit every statement kind equally often instead of by natural frequency
+    pub force_first_stmt: Option<u32>,
 }
 
 impl Default for GramOpts {
@@ -126,6 +129,7 @@ impl Default for GramOpts {
             anon_in_headers: false,
             anon_in_raise: false,
             extended: false,
+            force_first_stmt: None,
         }
     }
 }
@@ -895,7 +899,11 @@ impl<'r> Gen<'r> {
         let first = self.p.toks.len();
         let mut own_header_anon = false;
         let simple_only = self.budget <= 0 || self.depth > 7;
-        let r = if simple_only { self.rng.below(45) } else { self.rng.below(100) };
+        let drawn = if simple_only { self.rng.below(45) } else { self.rng.below(100) };
+        let r = match self.o.force_first_stmt.take() {
+            Some(f) if !simple_only || f < 45 => f as usize,
+            _ => drawn,
+        };
         let with_anchor = |me: usize| {
             let mut a = vec![me];
             a.extend(outer_anchors.iter().copied());
